@@ -1481,6 +1481,46 @@ def split_unused(tree):
     return flagged
 
 
+CANON_SKIP = {'for_dml_stmt', 'type_or_ptr_ref', 'typeref', 'ir_origins', 'ser_safe', 'is_packed_multi',
+              'optional', 'strip_output_namespaces', 'span'}
+
+
+def canon_tree(node):
+    """JSON-able dump of a pgast tree (real names, operators, flags): what the two processes'
+    trees are diffed on when their SQL texts differ.  A superset of what codegen prints."""
+    import enum
+    import uuid as _uuid
+    from edb.common.ast import base as astbase
+    from edb.pgsql import ast as pgast
+    if isinstance(node, (list, tuple)):
+        return [canon_tree(x) for x in node]
+    if isinstance(node, (set, frozenset)):
+        return sorted((canon_tree(x) for x in node), key=lambda x: json.dumps(x, sort_keys=True))
+    if isinstance(node, dict):
+        return {str(k): canon_tree(v) for k, v in node.items()}
+    if isinstance(node, pgast.Base):
+        out = {'_': type(node).__name__}
+        for fname, val in astbase.iter_fields(node, include_meta=False):
+            if node._fields[fname].hidden or fname in CANON_SKIP:
+                continue
+            if val is None or val == [] or val is False:
+                continue
+            if fname == 'relation' and isinstance(val, pgast.CommonTableExpr):
+                out[fname] = {'_': 'CteRef', 'name': val.name}      # printed as the bare name
+                continue
+            if isinstance(node, pgast.SelectStmt) and node.values and fname not in ('values', 'ctes'):
+                continue                                            # not printed for a VALUES node
+            out[fname] = canon_tree(val)
+        return out
+    if isinstance(node, (str, int, float, bool)) or node is None:
+        return node
+    if isinstance(node, bytes):
+        return node.hex()
+    if isinstance(node, (enum.Enum, _uuid.UUID)):
+        return str(node)
+    return f'<{type(node).__name__}>'
+
+
 class Capture:
     """Observes the real `edb.pgsql.compiler.compile_ir_to_sql_tree` from outside (wrapping the
     module attribute the server compiler calls): the last IR statement and its CompileResult."""
@@ -1571,7 +1611,7 @@ class Catalog:
         return sorted(cols) + SYSTEM_COLUMNS
 
 
-def compile_one(envm, cap: Capture, codegen, schema, text):
+def compile_one(envm, cap: Capture, codegen, schema, text, tree_path=None):
     """One query through the REAL server compiler (edb.server.compiler.compile: EdgeQL -> IR -> SQL
     tree -> SQL text + type descriptors); the SQL tree and argmap are captured on the way."""
     from edb import errors
@@ -1598,6 +1638,10 @@ def compile_one(envm, cap: Capture, codegen, schema, text):
     ir, res = cap.calls[0]
     src = codegen.generate(res.ast, pretty=False)
     rec['sql'] = src.text
+    if tree_path is not None:
+        import gzip
+        with gzip.open(tree_path, 'wt', compresslevel=1) as tf:
+            json.dump(canon_tree(res.ast), tf)
     rec['sql_is_unit_sql'] = any(src.text in u['sql'] for u in rec['server'])
     rec['params_codegen'] = sorted(src.param_index)
     rec['argmap'] = [[k, v.index, v.logical_index, bool(v.required)] for k, v in res.argmap.items()]
@@ -1605,6 +1649,18 @@ def compile_one(envm, cap: Capture, codegen, schema, text):
                         for p in ir.params]
     rec['ir_globals'] = [[g.name, bool(g.required), bool(g.has_present_arg)] for g in ir.globals]
     rec['flagged_unused'] = sorted(split_unused(res.ast))
+    try:
+        from edb.common.ast import visitor as _visitor
+        from edb.ir import ast as _irast
+        pids = [str(x.path_id) for x in _visitor.find_children(ir.expr, _irast.Set)]
+        rec['ir_fp'] = hashlib.md5('\n'.join(pids).encode()).hexdigest()
+        rec['ir_fp_masked'] = hashlib.md5('\n'.join(
+            sorted(re.sub(r'~\d+', '~#', x) for x in pids)).encode()).hexdigest()
+        rec['ir_conflict_checks'] = max(
+            [len(x.conflict_checks or []) for x in _visitor.find_children(ir.expr, _irast.MutatingStmt)] or [0])
+    except Exception:
+        rec['ir_fp'] = rec['ir_fp_masked'] = None
+        rec['ir_conflict_checks'] = 0
     try:
         line, ex = export_tree(res.ast, Catalog(ir.schema))
     except Unmodelled as e:
@@ -1638,13 +1694,16 @@ def worker_main(spec_path: str, out_path: str):
         with open(path, 'rb') as f:
             schemas[name] = pickle.load(f)
     envm.new_compiler()
+    tree_dir = out_path + '.trees'
+    os.makedirs(tree_dir, exist_ok=True)
     t_start = time.time() - t0
     with open(out_path, 'w') as out:
         out.write(json.dumps(dict(meta=dict(hashseed=os.environ.get('PYTHONHASHSEED'),
                                             startup_s=round(t_start, 1)))) + '\n')
         for i, q in enumerate(spec['queries']):
             try:
-                rec = compile_one(envm, cap, codegen, schemas[q['schema']], q['text'])
+                rec = compile_one(envm, cap, codegen, schemas[q['schema']], q['text'],
+                                  tree_path=os.path.join(tree_dir, f'{i}.json.gz'))
             except Exception:
                 rec = dict(status='worker-error', err=traceback.format_exc()[-1500:])
             rec['i'] = i
@@ -2195,21 +2254,369 @@ def qkey(q):
     return f"{q['schema']}:{hashlib.sha1(q['text'].encode()).hexdigest()[:10]}"
 
 
-CHECK_SCAN_RE = re.compile(r'\(\d{6,}(?= \+\s+\()')
-TOKEN_RE = re.compile(r'[A-Za-z0-9_~#|:@\-.$]+|\S')
+# the integer literal `clauses.scan_check_ctes` draws with random.randint (non-pretty text)
+CHECK_SCAN_RE = re.compile(r'(_dml_dummy SET flag = TRUE WHERE \(id = \(*)\d+')
 
 
-def classify_sql_diff(a: str, b: str) -> str:
-    """check-scan-random: only the random base integer of scan_check_ctes differs;
-    reorder: the same tokens in a different order / with renumbered aliases (iteration over a
-    hash container in emission order); other: anything else."""
-    na, nb = CHECK_SCAN_RE.sub('(N', a), CHECK_SCAN_RE.sub('(N', b)
-    if na == nb:
-        return 'check-scan-random'
-    ta = sorted(TOKEN_RE.findall(re.sub(r'~\d+', '~#', na)))
-    tb = sorted(TOKEN_RE.findall(re.sub(r'~\d+', '~#', nb)))
-    return 'reorder' if ta == tb else 'other'
+def mask_check_scan(sql: str) -> str:
+    return CHECK_SCAN_RE.sub(lambda m: m.group(1) + 'N', sql)
 
+
+# ----- root-cause classification of a difference between the two processes' SQL TREES -----
+# Every class corresponds to an iteration over a hash container that was located in the source;
+# a pair of trees belongs to a set of classes when the trees become equal after undoing exactly
+# those re-orderings.  Anything else is `unclassified` (an ordinary violation).
+ROOT_CAUSES = {
+    'conjunct-order':
+        'order of the AND-conjuncts of a WHERE / JOIN ON condition: relctx._plain_join and '
+        '_lateral_union_join iterate the SET right_rvar.query.path_bonds '
+        '(edb/pgsql/compiler/relctx.py:1426, 1482; pgast.EdgeQLPathInfo.path_bonds is typing.Set, '
+        'PathId.__hash__ hashes self.__class__)',
+    'union-arm-order':
+        'order of the arms of an inheritance UNION: relctx._get_typeref_descendants iterates the set returned '
+        'by irtyputils.get_typeref_descendants (edb/ir/typeutils.py:1099 -> edb/pgsql/compiler/relctx.py:1811), '
+        '_get_ptrref_descendants iterates BasePointerRef.descendants() (a set, edb/ir/ast.py:288 -> '
+        'relctx.py:2393) and range_for_ptrref iterates the set union_components (relctx.py:2132)',
+    'dml-column-order':
+        'order of the columns of the ins_/upd_ rewrites CTE (and with it of the value outputs of the contents '
+        'CTE and of the INSERT/UPDATE column list): dml.process_insert_rewrites / process_update_rewrites '
+        'iterate the set comprehension `not_rewritten` (edb/pgsql/compiler/dml.py:987-991, 1970-1974)',
+    'check-scan-random':
+        'clauses.scan_check_ctes embeds random.randint(0, 2**60-1) into the UPDATE _dml_dummy statement '
+        '(edb/pgsql/compiler/clauses.py:478)',
+    'ir-conflict-check-order':
+        'the IR itself differs between the processes (numbering of the __derived__::expr~N path ids and order of '
+        'the inheritance conflict checks of a DML statement): conflicts.compile_inheritance_conflict_checks collects '
+        '(type, ancestor, statement) triples into the SET modified_ancestors and iterates it '
+        '(edb/edgeql/compiler/conflicts.py:761, 821; IR statement nodes hash by identity)',
+    'join-equivalent-column':
+        'which of two columns that `=` conditions of the statement equate is referenced: '
+        'relctx._pull_path_namespace collects the paths of a range var into the SET s_paths and iterates it '
+        '(edb/pgsql/compiler/relctx.py:92, 112), so the dict path_rvar_map of the target query is filled in hash '
+        'order and later first-match look-ups pick a different provider range var for the same path',
+}
+RENUMBER_WITH = {'union-arm-order', 'dml-column-order'}      # re-orderings that shift alias counters
+DML_CTE_RE = re.compile(r'^(ins|upd)_(contents|rewrites)~\d+$')
+ALIAS_NUM_RE = re.compile(r'~\d+')
+
+
+def _mkey(x) -> str:
+    """sort key that does not depend on alias counters"""
+    return ALIAS_NUM_RE.sub('~#', json.dumps(x, sort_keys=True))
+
+
+def _flatten_and(e):
+    if isinstance(e, dict) and e.get('_') == 'Expr' and str(e.get('name', '')).upper() == 'AND' \
+            and 'lexpr' in e and 'rexpr' in e:
+        return _flatten_and(e['lexpr']) + _flatten_and(e['rexpr'])
+    if isinstance(e, dict) and e.get('_') == 'AND*':
+        return list(e['args'])
+    return [e]
+
+
+def _mask_big_ints(t):
+    if isinstance(t, list):
+        return [_mask_big_ints(x) for x in t]
+    if isinstance(t, dict):
+        if t.get('_') == 'NumericConstant' and re.fullmatch(r'\d{1,19}', str(t.get('val', ''))):
+            return dict(t, val='N')
+        return {k: _mask_big_ints(v) for k, v in t.items()}
+    return t
+
+
+def tree_normalise(t, classes, renumber):
+    """undo the re-orderings of `classes` (bottom-up), then optionally renumber alias counters"""
+    def fix(node):
+        if 'subselect-outputs' in classes and node.get('_') == 'RangeSubselect':
+            q = node.get('subquery')
+            if isinstance(q, dict) and q.get('_') == 'SelectStmt' and 'op' not in q and 'values' not in q \
+                    and q.get('target_list') \
+                    and all(isinstance(t, dict) and t.get('name') for t in q['target_list']):
+                q['target_list'] = sorted(q['target_list'], key=_mkey)
+        if 'conjunct-order' in classes:
+            for fld in ('where_clause', 'quals'):
+                if fld in node:
+                    cs = _flatten_and(node[fld])
+                    if len(cs) > 1:
+                        node[fld] = {'_': 'AND*', 'args': sorted(cs, key=_mkey)}
+        if 'union-arm-order' in classes and node.get('_') == 'SelectStmt' \
+                and str(node.get('op', '')).upper() == 'UNION' and 'larg' in node and 'rarg' in node:
+            arms = []
+            for arm in (node['larg'], node['rarg']):
+                if isinstance(arm, dict) and arm.get('_') == 'UNION*' and arm.get('all') == node.get('all') \
+                        and set(arm) <= {'_', 'all', 'arms'}:
+                    arms += arm['arms']
+                else:
+                    arms.append(arm)
+            rest = {k: v for k, v in node.items() if k not in ('larg', 'rarg', 'op', '_')}
+            node = dict(rest, _='UNION*', arms=sorted(arms, key=_mkey))
+        if 'dml-column-order' in classes:
+            if node.get('_') == 'CommonTableExpr' and DML_CTE_RE.match(str(node.get('name', ''))) \
+                    and isinstance(node.get('query'), dict) and 'target_list' in node['query']:
+                node['query']['target_list'] = sorted(node['query']['target_list'], key=_mkey)
+            if node.get('_') == 'InsertStmt':
+                if 'cols' in node:
+                    node['cols'] = sorted(node['cols'], key=_mkey)
+                sel = node.get('select_stmt')
+                if isinstance(sel, dict) and 'target_list' in sel:
+                    sel['target_list'] = sorted(sel['target_list'], key=_mkey)
+            if node.get('_') == 'UpdateStmt' and 'targets' in node:
+                node['targets'] = sorted(node['targets'], key=_mkey)
+            if node.get('_') == 'MultiAssignRef':
+                # `(c1, …, cn) = (SELECT r.c1, …, r.cn FROM upd_rewrites r)`: both lists in parallel
+                if isinstance(node.get('columns'), list):
+                    node['columns'] = sorted(node['columns'])
+                src = node.get('source')
+                if isinstance(src, dict) and isinstance(src.get('target_list'), list):
+                    src['target_list'] = sorted(src['target_list'], key=_mkey)
+        if 'check-scan-random' in classes and node.get('_') == 'UpdateStmt':
+            rel = (node.get('relation') or {}).get('relation') or {}
+            if rel.get('name') == '_dml_dummy' and 'where_clause' in node:
+                node['where_clause'] = _mask_big_ints(node['where_clause'])
+        return node
+
+    def walk(x):
+        if isinstance(x, list):
+            return [walk(y) for y in x]
+        if isinstance(x, dict):
+            return fix({k: walk(v) for k, v in x.items()})
+        return x
+
+    out = walk(t)
+    if renumber:
+        counters: dict = {}
+        mapping: dict = {}
+
+        def assign(x):
+            m = re.fullmatch(r'(.*)~(\d+)', x, re.S)
+            if m and x not in mapping:
+                h = m.group(1)
+                counters[h] = counters.get(h, 0) + 1
+                mapping[x] = f'{h}~{counters[h]}'
+
+        def defs(x):
+            # numbers are handed out in the order of the DEFINITION sites (range-variable aliases, CTE
+            # names, output column names), so that a differing reference cannot shift them
+            if isinstance(x, list):
+                for y in x:
+                    defs(y)
+            elif isinstance(x, dict):
+                t = x.get('_')
+                if t == 'Alias':
+                    for n in [x.get('aliasname')] + list(x.get('colnames') or []):
+                        if isinstance(n, str):
+                            assign(n)
+                elif t in ('ResTarget', 'CommonTableExpr') and isinstance(x.get('name'), str):
+                    assign(x['name'])
+                for v in x.values():
+                    defs(v)
+
+        def ren(x, key=None):
+            if isinstance(x, list):
+                return [ren(y, key) for y in x]
+            if isinstance(x, dict):
+                return {k: ren(v, k) for k, v in x.items()}
+            if isinstance(x, str) and key not in ('val', 'expr'):
+                assign(x)
+                return mapping.get(x, x)
+            return x
+        defs(out)
+        out = ren(out)
+    return out
+
+
+class _Equated:
+    """Columns that some `=` conjunct of the statement equates (union-find over qualified column
+    names; the compiler's aliases are unique within a statement)."""
+
+    def __init__(self, tree):
+        self.parent = {}
+        self._scan(tree)
+
+    def _find(self, x):
+        while self.parent.setdefault(x, x) != x:
+            self.parent[x] = self.parent[self.parent[x]]
+            x = self.parent[x]
+        return x
+
+    def _scan(self, x):
+        if isinstance(x, list):
+            for y in x:
+                self._scan(y)
+        elif isinstance(x, dict):
+            if x.get('_') == 'Expr' and x.get('name') == '=':
+                l, r = x.get('lexpr'), x.get('rexpr')
+                if isinstance(l, dict) and isinstance(r, dict) and l.get('_') == r.get('_') == 'ColumnRef':
+                    a, b = self._find(json.dumps(l.get('name'))), self._find(json.dumps(r.get('name')))
+                    self.parent[a] = b
+            for v in x.values():
+                self._scan(v)
+
+    def same(self, x, y) -> bool:
+        return self._find(json.dumps(x)) == self._find(json.dumps(y))
+
+
+def equal_mod_equated(a, b, eq_a=None, eq_b=None):
+    """-> (equal?, number of column references that differ but are equated (transitively) by `=`
+    conditions of the statement, in both trees)"""
+    if eq_a is None:
+        eq_a, eq_b = _Equated(a), _Equated(b)
+    if isinstance(a, dict) and isinstance(b, dict):
+        if a.get('_') == 'ColumnRef' and b.get('_') == 'ColumnRef' and a != b:
+            if eq_a.same(a.get('name'), b.get('name')) and eq_b.same(a.get('name'), b.get('name')) \
+                    and {k: v for k, v in a.items() if k != 'name'} == {k: v for k, v in b.items() if k != 'name'}:
+                return True, 1
+            return False, 0
+        if a.get('_') != b.get('_') or set(a) != set(b):
+            return False, 0
+        n = 0
+        for k in a:
+            ok, m = equal_mod_equated(a[k], b[k], eq_a, eq_b)
+            if not ok:
+                return False, 0
+            n += m
+        return True, n
+    if isinstance(a, list) and isinstance(b, list):
+        if len(a) != len(b):
+            return False, 0
+        n = 0
+        for x, y in zip(a, b):
+            ok, m = equal_mod_equated(x, y, eq_a, eq_b)
+            if not ok:
+                return False, 0
+            n += m
+        return True, n
+    return a == b, 0
+
+
+def classify_tree_diff(ta, tb):
+    """-> sorted list of root-cause classes explaining the difference, or None (unclassified).
+
+    `conjunct-order` also tolerates a different order of the (named) output columns of FROM sub-selects,
+    because the same loop over `path_bonds` injects those outputs (`get_rvar_path_var(right_rvar, …)`);
+    but only when the order of conjuncts really differs: a pair explained by the order of sub-select
+    outputs alone is NOT attributed to it."""
+    import itertools
+    reorders = [c for c in ROOT_CAUSES if c not in ('join-equivalent-column', 'ir-conflict-check-order')]
+
+    def expand(ss):
+        return ss | {'subselect-outputs'} if 'conjunct-order' in ss else ss
+
+    full = expand(set(reorders))
+    if not equal_mod_equated(tree_normalise(ta, full, True), tree_normalise(tb, full, True))[0] and \
+            not equal_mod_equated(tree_normalise(ta, full, False), tree_normalise(tb, full, False))[0]:
+        return None
+    for r in range(0, len(reorders) + 1):
+        for sub in itertools.combinations(reorders, r):
+            ss = set(sub)
+            for renum in ((False, True) if ss & RENUMBER_WITH else (False,)):
+                na, nb = tree_normalise(ta, expand(ss), renum), tree_normalise(tb, expand(ss), renum)
+                ok, n = equal_mod_equated(na, nb)
+                if not ok or (not ss and n == 0):
+                    continue
+                if 'conjunct-order' in ss:
+                    # would the order of sub-select outputs alone (no conjunct re-ordering) explain it?
+                    alt = (ss - {'conjunct-order'}) | {'subselect-outputs'}
+                    if equal_mod_equated(tree_normalise(ta, alt, renum), tree_normalise(tb, alt, renum))[0]:
+                        return None
+                return sorted(ss | ({'join-equivalent-column'} if n > 0 else set()))
+    return None
+
+
+def coarse_ir_equal(ta, tb) -> bool:
+    """Only used when the IR of the two processes is known to differ by numbering / order of conflict
+    checks: are the SQL trees equal after undoing every identified re-ordering, sorting CTE lists and
+    masking every number that follows `~` or `-` in a name?"""
+    full = {c for c in ROOT_CAUSES if c not in ('join-equivalent-column', 'ir-conflict-check-order')} \
+        | {'subselect-outputs'}
+
+    def mask(x, key=None):
+        if isinstance(x, list):
+            return [mask(y, key) for y in x]
+        if isinstance(x, dict):
+            d = {k: mask(v, k) for k, v in x.items()}
+            if isinstance(d.get('ctes'), list):
+                d['ctes'] = sorted(d['ctes'], key=_mkey)
+            for k in ('target_list', 'args'):
+                if isinstance(d.get(k), list) and d.get('_') in ('SelectStmt', 'AND*'):
+                    d[k] = sorted(d[k], key=_mkey)
+            if d.get('_') == 'UNION*':
+                d['arms'] = sorted(d['arms'], key=_mkey)
+            return d
+        if isinstance(x, str) and key not in ('val', 'expr'):
+            return re.sub(r'(?<=[~-])\d+', '#', x)
+        return x
+
+    return equal_mod_equated(mask(tree_normalise(ta, full, False)), mask(tree_normalise(tb, full, False)))[0]
+
+
+def load_tree(path):
+    import gzip
+    with gzip.open(path, 'rt') as f:
+        return json.load(f)
+
+
+def descriptor_canon(data_hex: str, sort_components: bool, mask_derived_ids: bool = False):
+    """structural form of a type descriptor via the REAL parser; optionally with the components of
+    compound (union / intersection) object types sorted by type id, and with the ids of compound types
+    and of the ids computed from them (sets, shapes, collections) masked.
+    -> (structure, contains a compound type?)"""
+    import dataclasses
+    from edb.server import defines as edbdef
+    from edb.server.compiler import sertypes
+    td = sertypes.parse(bytes.fromhex(data_hex), edbdef.CURRENT_PROTOCOL)
+    derived = (sertypes.CompoundDesc, sertypes.ShapeDesc, sertypes.SequenceDesc, sertypes.TupleDesc,
+               sertypes.NamedTupleDesc)
+    seen = {'compound': False}
+
+    def conv(x):
+        if dataclasses.is_dataclass(x) and not isinstance(x, type):
+            tid = str(getattr(x, 'tid', None))
+            if isinstance(x, sertypes.CompoundDesc):
+                seen['compound'] = True
+            if mask_derived_ids and isinstance(x, derived):
+                tid = '<derived>'
+            d = {'_': type(x).__name__, 'tid': tid}
+            for f in dataclasses.fields(x):
+                if f.name != 'tid':
+                    d[f.name] = conv(getattr(x, f.name))
+            if sort_components and isinstance(x, sertypes.CompoundDesc):
+                d['components'] = sorted(d['components'], key=lambda c: json.dumps(c, sort_keys=True))
+            return d
+        if isinstance(x, dict):
+            return {str(k): conv(v) for k, v in x.items()}
+        if isinstance(x, (list, tuple)):
+            return [conv(v) for v in x]
+        if isinstance(x, (str, int, float, bool)) or x is None:
+            return x
+        return str(x)
+    return conv(td), seen['compound']
+
+
+def classify_descriptor_diff(va: str, vb: str):
+    """-> list of root-cause classes, or None"""
+    for sort, mask, classes in ((True, False, ['compound-type-component-order']),
+                                (False, True, ['compound-type-fresh-id']),
+                                (True, True, ['compound-type-component-order', 'compound-type-fresh-id'])):
+        ca, has_a = descriptor_canon(va, sort, mask)
+        cb, has_b = descriptor_canon(vb, sort, mask)
+        if has_a and has_b and ca == cb:
+            return classes
+    return None
+
+
+DESCRIPTOR_ROOT_CAUSES = {
+    'compound-type-component-order':
+        'order of the components of a compound (union) object type in the output type descriptor: '
+        'sertypes._describe_compound_object_type iterates t.get_union_of(schema).objects(schema), an unordered '
+        'object set (edb/server/compiler/sertypes.py:727)',
+    'compound-type-fresh-id':
+        'the id of a compound (union) object type written into the descriptor, and the set / shape ids computed '
+        'from it: objtypes.get_or_create_union_type derives the union type at compile time '
+        '(edb/schema/objtypes.py:385) without a stable id, so Object._prepare_id draws uuidgen.uuid1mc() '
+        '(edb/schema/objects.py:1184); sertypes._describe_compound_object_type emits t.id '
+        '(edb/server/compiler/sertypes.py:721-740)',
+}
 
 def first_diff(a: str, b: str, width=60):
     n = min(len(a), len(b))
@@ -2313,6 +2720,7 @@ def run(ctx: core.Ctx):
                  'used as a hint comes back unchanged', pg_witness)
     n_pg = 0
     pg_found = None
+    pg_same_shape = 0
     for _ in range(ctx.budget(400, 10000)):
         g = pg_aliases.AliasGenerator()
         hints, outs = [], []
@@ -2327,11 +2735,25 @@ def run(ctx: core.Ctx):
             hints.append(h)
             outs.append(g.get(h))
         n_pg += 1
-        if len(set(outs)) != len(outs) and (pg_found is None or len(hints) < len(pg_found['hints'])):
-            pg_found = dict(hints=hints, aliases=outs)
+        if len(set(outs)) != len(outs):
+            # shape of the witness: a SHORTENED alias (md5 + ':' + tail, ending in ~N) re-used as a hint
+            # comes back unchanged
+            j = next(k for k in range(len(outs)) if outs[k] in outs[:k])
+            i = outs.index(outs[j])
+            same_shape = (hints[j] == outs[i] and len(outs[i]) == s_defines.MAX_NAME_LENGTH
+                          and re.match(r'^[A-Za-z0-9+/]{22}:', outs[i]) is not None
+                          and re.search(r'~[0-9]+$', outs[i]) is not None)
+            found = dict(hints=hints, aliases=outs, first=i, second=j)
+            if same_shape:
+                pg_same_shape += 1
+            elif pg_found is None or len(hints) < len(pg_found['hints']):
+                pg_found = found
+    if pg_same_shape and w1 != w2:
+        ctx.fail('alias-collision-pg:witness', 'edb.pgsql.compiler.aliases.AliasGenerator: a shortened alias '
+                 're-used as a hint comes back unchanged (found by the random search only)', {'count': pg_same_shape})
     if pg_found is not None:
-        ctx.fail('alias-collision-pg:random-search', 'edb.pgsql.compiler.aliases.AliasGenerator returned the '
-                 'same alias twice', pg_found)
+        ctx.fail('alias-collision-pg:other-shape', 'edb.pgsql.compiler.aliases.AliasGenerator returned the '
+                 'same alias twice, and NOT by re-using a shortened alias as a hint', pg_found)
     # (e) populate_argmap
     n_am = ctx.budget(3000, 60000)
     am_cases = [gen_argmap_case(rng) for _ in range(n_am)]
@@ -2411,6 +2833,7 @@ def run(ctx: core.Ctx):
             raise core.Infra(f'worker shard {sh} seed {hs} incomplete output: {se[-800:]}')
         metas.append(dict(shard=sh, hashseed=hs, startup_s=meta['startup_s'], total_s=done['total_s']))
         for j, i in enumerate(idx):
+            recs[j]['_tree'] = os.path.join(op + '.trees', f'{j}.json.gz')
             results.setdefault(i, {})[hs] = recs[j]
     ctx.log('workers done:', metas)
 
@@ -2421,6 +2844,7 @@ def run(ctx: core.Ctx):
     qlines, qmeta = [], []
     n_det_checked = n_det_diff = 0
     det_classes = collections.Counter()
+    det_instances: dict = {}
     n_desc_checked = 0
     rejected_samples, ise_samples, unmodelled_samples = [], [], []
     for i, q in enumerate(pop):
@@ -2437,55 +2861,79 @@ def run(ctx: core.Ctx):
                      base_detail | {'a': a.get('err', a['status']), 'b': b.get('err', b['status'])})
         if a['status'] in ('ok', 'unmodelled') and b['status'] == a['status']:
             n_det_checked += 1
-            diffs = []
-            if a['sql'] != b['sql']:
-                diffs.append(('sql', classify_sql_diff(a['sql'], b['sql']), first_diff(a['sql'], b['sql'])))
+            text_differs = a['sql'] != b['sql'] or a.get('line') != b.get('line') or any(
+                ua['sql'] != ub['sql'] for ua, ub in zip(a.get('server') or [], b.get('server') or []))
+            other = []
             if a['argmap'] != b['argmap']:
-                diffs.append(('argmap', 'other', dict(a=a['argmap'], b=b['argmap'])))
-            if a.get('line') != b.get('line'):
-                # the exported tree follows the SQL text: same class as the text difference
-                diffs.append(('tree', classify_sql_diff(a['sql'], b['sql']) if a['sql'] != b['sql'] else 'other',
-                              first_diff(a.get('line') or '', b.get('line') or '')))
-            sa, sb = a.get('server'), b.get('server')
-            if sa is not None and sb is not None:
-                n_desc_checked += 1
-                for ua, ub in zip(sa, sb):
-                    for f in ('out_type_id', 'out_type_data', 'in_type_id', 'in_type_data',
-                              'in_type_args', 'capabilities', 'cardinality'):
-                        if ua[f] != ub[f]:
-                            diffs.append(('descriptor:' + f, 'other', dict(a=ua[f][:200], b=ub[f][:200])))
-                    if ua['sql'] != ub['sql']:
-                        diffs.append(('server-sql', classify_sql_diff(ua['sql'], ub['sql']),
-                                      first_diff(ua['sql'], ub['sql'])))
-                if len(sa) != len(sb):
-                    diffs.append(('server-units', 'other', None))
-            if diffs:
+                other.append(('argmap', dict(a=a['argmap'], b=b['argmap'])))
+            sa, sb = a.get('server') or [], b.get('server') or []
+            if len(sa) != len(sb):
+                other.append(('server-units', None))
+            desc_diffs = []
+            n_desc_checked += 1
+            for ua, ub in zip(sa, sb):
+                for f in ('out_type_id', 'out_type_data', 'in_type_id', 'in_type_data',
+                          'in_type_args', 'capabilities', 'cardinality'):
+                    if ua[f] != ub[f]:
+                        desc_diffs.append((f, ua[f], ub[f]))
+            if text_differs or other or desc_diffs:
                 n_det_diff += 1
-                classes = {c for _, c, _ in diffs}
-                kinds = {w.split(':')[0] for w, _, _ in diffs}
-                if classes <= {'check-scan-random'}:
-                    cls = 'check-scan-random'
-                elif 'descriptor' in kinds:
-                    cls = 'descriptor'
-                elif kinds <= {'sql', 'tree', 'server-sql'}:
-                    cls = 'text'
+            inst = base_detail | {'ir_differs': a.get('ir_fp') != b.get('ir_fp')}
+            if text_differs:
+                if mask_check_scan(a['sql']) == mask_check_scan(b['sql']) and a['sql'] != b['sql'] and all(
+                        mask_check_scan(ua['sql']) == mask_check_scan(ub['sql']) for ua, ub in zip(sa, sb)):
+                    classes = ['check-scan-random']
                 else:
-                    cls = 'other'
-                det_classes[cls] += 1
-                if 'reorder' in classes and cls == 'text':
-                    det_classes['text:same-tokens-reordered'] += 1
-                why = {'check-scan-random': ' — only the random base integer of clauses.scan_check_ctes differs',
-                       'text': ' — the SQL text depends on the iteration order of hash containers whose element '
-                               'hashes differ between processes (e.g. relctx._plain_join iterates the set '
-                               'path_bonds; PathId.__hash__ includes hash(type))',
-                       'descriptor': ' — the output type descriptor bytes differ (order of the components of a '
-                                     'union type)',
-                       'other': ''}[cls]
-                ctx.fail(f'nondet:{cls}:{key}',
-                         'recompiling the same query against the same schema in a second process '
-                         '(different PYTHONHASHSEED) gives different output: '
-                         + ', '.join(sorted({w for w, _, _ in diffs})) + why,
-                         base_detail | {'differences': [dict(what=w, cls=c, diff=d) for w, c, d in diffs[:4]]})
+                    try:
+                        tra, trb = load_tree(a['_tree']), load_tree(b['_tree'])
+                        classes = classify_tree_diff(tra, trb)
+                        if classes is None and inst['ir_differs'] and a.get('ir_fp_masked') is not None \
+                                and a.get('ir_fp_masked') == b.get('ir_fp_masked') \
+                                and min(a.get('ir_conflict_checks', 0), b.get('ir_conflict_checks', 0)) >= 2 \
+                                and coarse_ir_equal(tra, trb):
+                            classes = ['ir-conflict-check-order']
+                    except OSError:
+                        classes = None
+                if classes is None:
+                    det_classes['text:unclassified' + (':ir-differs' if inst['ir_differs'] else '')] += 1
+                    ctx.fail(f'nondet:text:unclassified:{key}',
+                             'recompiling the same query against the same schema in a second process gives a '
+                             'different SQL text, and the two SQL trees are NOT equal modulo any of the identified '
+                             're-orderings (' + ', '.join(ROOT_CAUSES) + ')'
+                             + ('; the IR already differs between the two processes (edgeql compiler)'
+                                if inst['ir_differs'] else ''),
+                             inst | {'first_difference': first_diff(a['sql'], b['sql']),
+                                     'sql_a': a['sql'], 'sql_b': b['sql']})
+                else:
+                    det_classes['text:' + '+'.join(classes)] += 1
+                    for c in classes:
+                        det_instances.setdefault('nondet:text:' + c, []).append(
+                            inst | {'first_difference': first_diff(a['sql'], b['sql']),
+                                    'all_classes_of_this_instance': classes})
+            dclasses = None
+            for f, va, vb in desc_diffs:
+                if f == 'out_type_data':
+                    try:
+                        dclasses = classify_descriptor_diff(va, vb)
+                    except Exception as e:       # the real parser under test
+                        inst = inst | {'parse_error': f'{type(e).__name__}: {e}'}
+            for f, va, vb in desc_diffs:
+                if dclasses and f in ('out_type_data', 'out_type_id'):
+                    if f == 'out_type_data':
+                        det_classes['descriptor:' + '+'.join(dclasses)] += 1
+                        for c in dclasses:
+                            det_instances.setdefault('nondet:descriptor:' + c, []).append(
+                                inst | {'field': f, 'a': va[:600], 'b': vb[:600],
+                                        'all_classes_of_this_instance': dclasses})
+                    continue
+                det_classes['descriptor:unclassified'] += 1
+                ctx.fail(f'nondet:descriptor:unclassified:{f}:{key}',
+                         f'the type descriptor field {f} differs between two processes and the difference is '
+                         'not explained by the identified causes (' + ', '.join(DESCRIPTOR_ROOT_CAUSES) + ')',
+                         inst | {'field': f, 'a': va, 'b': vb})
+            for w, d in other:
+                det_classes[w] += 1
+                ctx.fail(f'nondet:{w}:{key}', f'{w} differs between two processes', inst | {'diff': d})
         if a['status'] == 'rejected':
             if len(rejected_samples) < 5:
                 rejected_samples.append(dict(q=q['text'][:160], err=a['err'][:120]))
@@ -2541,6 +2989,17 @@ def run(ctx: core.Ctx):
         qmeta.append(('tree', i))
         qlines.append(argmap_line(am_case))
         qmeta.append(('argmap', i))
+
+    # one report per identified root cause (at most two instances, with the count)
+    for fkey, insts in sorted(det_instances.items()):
+        cls = fkey.split(':', 2)[2]
+        cause = ROOT_CAUSES.get(cls) or DESCRIPTOR_ROOT_CAUSES[cls]
+        ctx.fail(fkey,
+                 'recompiling the same query against the same schema in a second process (different '
+                 f'PYTHONHASHSEED) gives a different {"type descriptor" if "descriptor" in fkey else "SQL text"}; '
+                 f'root cause: {cause}',
+                 {'schema': insts[0]['schema'], 'text': insts[0]['text'], 'count': len(insts),
+                  'instances': insts[:2]})
 
     # non-vacuity on real trees: protocol-level mutants
     n_base = len(qlines)
@@ -2644,6 +3103,7 @@ def run(ctx: core.Ctx):
         'hand_cases': dict(hand_hist),
         'level1': {'alias_runs': len(alias_cases), 'argmap_cases': len(am_cases),
                    'disagreements_model_vs_impl': n_dis, 'pg_alias_subclass_runs': n_pg,
+                   'pg_alias_collisions_of_witness_shape': pg_same_shape,
                    'pg_alias_witness': pg_witness},
         'rejected_samples': rejected_samples, 'internal_error_samples': ise_samples,
         'unmodelled_samples': unmodelled_samples,
